@@ -334,7 +334,7 @@ pub fn gen_v1_mutant(t: &mut Tape) -> (Vec<u8>, &'static str) {
     let mut p = gen_valid_parts(t, false);
     let tcp = p.proto != b"UNKNOWN";
     let v6 = p.proto == b"TCP6";
-    let kind = t.below(24);
+    let kind = t.below(26);
     let label: &'static str;
     match kind {
         0 => {
@@ -509,6 +509,29 @@ pub fn gen_v1_mutant(t: &mut Tape) -> (Vec<u8>, &'static str) {
             let line = p.render().to_ascii_lowercase();
             return (line, label);
         }
+        24 | 25 => {
+            // every field well-formed, but the fully expanded spelling (dotted-quad tail, padded groups) takes the
+            // line past 107 bytes: 108..116
+            label = "tcp6-too-long";
+            let grp = |t: &mut Tape| -> String {
+                let v = match t.below(3) {
+                    0 => 0xffffu16,
+                    1 => t.u16() | 0x1000,
+                    _ => t.u16(),
+                };
+                format!("{:04x}", v)
+            };
+            let addr = |t: &mut Tape| -> String {
+                let g: Vec<String> = (0..6).map(|_| grp(t)).collect();
+                let o = |t: &mut Tape| if t.coin() { 255u32 } else { 100 + t.below(156) };
+                format!("{}:{}.{}.{}.{}", g.join(":"), o(t), o(t), o(t), o(t))
+            };
+            let (a, b) = (addr(t), addr(t));
+            let pa = if t.coin() { 65535 } else { 10000 + t.below(55536) };
+            let pb = if t.coin() { 65535 } else { t.below(65536) };
+            let line = format!("PROXY TCP6 {} {} {} {}\r\n", a, b, pa, pb).into_bytes();
+            return (line, label);
+        }
         22 => {
             label = "dup-byte";
             let mut line = p.render();
@@ -558,8 +581,18 @@ pub fn gen_random_bytes(t: &mut Tape, max: usize) -> Vec<u8> {
 // trailers
 
 pub fn gen_trailer(t: &mut Tape, utf8_only: bool) -> (Vec<u8>, &'static str) {
-    let k = if utf8_only { t.weighted(&[1, 0, 3, 2, 2, 3, 3, 0]) } else { t.weighted(&[1, 3, 3, 2, 2, 3, 3, 2]) };
+    let k = if utf8_only { t.weighted(&[1, 0, 3, 2, 2, 3, 3, 0, 5]) } else { t.weighted(&[1, 3, 3, 2, 2, 3, 3, 2, 2]) };
     match k {
+        8 => {
+            // valid UTF-8 text rich in 2/3/4-byte characters, of any length up to ~130 bytes (so that some
+            // character straddles whatever fixed offset a parser might cut at)
+            let n = t.usize_in(1, 60);
+            let mut s = String::new();
+            for _ in 0..n {
+                s.push(*t.pick(&['\u{e9}', '\u{20ac}', '\u{1f600}', 'a', ' ', '\u{7ff}', '\u{800}', '\u{10348}', '\r', '\n', '1']));
+            }
+            (s.into_bytes(), "utf8-multibyte-text")
+        }
         0 => (vec![], "empty"),
         1 => {
             let n = t.usize_in(1, 40);
